@@ -530,7 +530,7 @@ impl Packet {
                 let token = buf[4..options_start].to_vec();
 
                 let mut idx = options_start;
-                let mut options_number = 0;
+                let mut options_number: u16 = 0;
                 let mut options: BTreeMap<u16, LinkedList<Vec<u8>>> =
                     BTreeMap::new();
                 while idx < buf.len() {
@@ -551,7 +551,7 @@ impl Packet {
                             if idx >= buf.len() {
                                 return Err(MessageError::InvalidOptionLength);
                             }
-                            delta = (buf[idx] + 13).into();
+                            delta = u16::from(buf[idx]) + 13;
                             idx += 1;
                         }
                         14 => {
@@ -564,7 +564,9 @@ impl Packet {
                                 idx,
                                 idx + 1,
                                 u16
-                            )) + 269;
+                            ))
+                            .checked_add(269)
+                            .ok_or(MessageError::InvalidOptionDelta)?;
                             idx += 2;
                         }
                         15 => {
@@ -588,13 +590,9 @@ impl Packet {
                                 return Err(MessageError::InvalidOptionLength);
                             }
 
-                            length = (u16::from_be(u8_to_unsigned_be!(
-                                buf,
-                                idx,
-                                idx + 1,
-                                u16
-                            )) + 269)
-                                as usize;
+                            length = usize::from(u16::from_be(
+                                u8_to_unsigned_be!(buf, idx, idx + 1, u16),
+                            )) + 269;
                             idx += 2;
                         }
                         15 => {
@@ -603,7 +601,9 @@ impl Packet {
                         _ => {}
                     };
 
-                    options_number += delta;
+                    options_number = options_number
+                        .checked_add(delta)
+                        .ok_or(MessageError::InvalidOptionDelta)?;
 
                     let end = idx + length;
                     if end > buf.len() {
